@@ -15,6 +15,7 @@ import (
 	"strconv"
 	"strings"
 	"sync"
+	"sync/atomic"
 	"time"
 )
 
@@ -293,5 +294,41 @@ func waitOrDeadlock(wg *sync.WaitGroup, pkg string) string {
 			}
 			return "deadlock: every goroutine inside " + pkg + " waits on a lock or WaitGroup and none can proceed:\n" + dump
 		}
+	}
+}
+
+// waitUntilParked polls until goroutine *gp (0 = not started yet) is gone, done is closed, or the
+// runtime has shown it parked - in any state other than running / runnable - in 20 consecutive
+// samples; after 30000 samples it gives up waiting (the caller then simply explores another
+// schedule: no verdict depends on this).  Used to release a stalled reporter call only once the
+// goroutine calling Close has gone as far as it can.
+func waitUntilParked(gp *uint64, done <-chan struct{}) {
+	parked := 0
+	for n := 0; n < 30000; n++ {
+		select {
+		case <-done:
+			return
+		default:
+		}
+		g := atomic.LoadUint64(gp)
+		if g != 0 {
+			st := goroutineStack(g)
+			if st == "" {
+				return
+			}
+			hdr := st
+			if i := strings.IndexByte(hdr, '\n'); i >= 0 {
+				hdr = hdr[:i]
+			}
+			if strings.Contains(hdr, "[running") || strings.Contains(hdr, "[runnable") {
+				parked = 0
+			} else {
+				parked++
+				if parked >= 20 {
+					return
+				}
+			}
+		}
+		time.Sleep(100 * time.Microsecond)
 	}
 }
